@@ -293,6 +293,28 @@ theorem all_done_once (ids : List Nat) (hn : ids.Nodup) (s : Sys) (h : Inv ids s
   simp only [places, List.count_append, hp, hs, hh, List.count_nil, h0, h1, h2] at hc
   omega
 
+/-- A message without any completion signal in a final state is still inside a `QueueMessage`
+call (not started, or between the check and the channel send), or it entered the buffer after
+the disconnect request. -/
+theorem unsignalled_in_flight (ids : List Nat) (hn : ids.Nodup) (s : Sys) (h : Inv ids s)
+    (hf : final s = true) (m : Nat) (hm : m ∈ ids) (h0 : s.done.count m = 0) :
+    m ∈ s.todo ∨ m ∈ s.checked ∨ (m ∈ s.outQ ∧ m ∉ s.sentBefore) := by
+  have hc := h.cnt m
+  have hid : 0 < ids.count m := List.count_pos_iff.2 hm
+  obtain ⟨hp, hs, hh, _⟩ := final_places s h.ctl hf
+  simp only [places, List.count_append, hp, hs, hh, List.count_nil, h0] at hc
+  by_cases h1 : m ∈ s.todo
+  · exact Or.inl h1
+  by_cases h2 : m ∈ s.checked
+  · exact Or.inr (Or.inl h2)
+  have c1 : s.todo.count m = 0 := List.count_eq_zero.2 h1
+  have c2 : s.checked.count m = 0 := List.count_eq_zero.2 h2
+  have h3 : m ∈ s.outQ := List.count_pos_iff.1 (by omega)
+  refine Or.inr (Or.inr ⟨h3, ?_⟩)
+  intro hsb
+  have := done_exactly_once ids hn s h hf m hsb
+  omega
+
 /-! ### termination -/
 
 def QPhase.w : QPhase → Nat
